@@ -134,6 +134,31 @@ def run(ctx):
 
         res.rules["N-VECTYPE"] = "a function handed to np.vectorize without otypes returns one numeric type on every path (the output dtype is taken from the first element)"
         check_vectorize_otypes(ctx, res, "hypergraphx/communities/hy_mmsbm/model.py")
+    # ---- E-IDCACHE: a quantity derived from u / w that is cached on the model and revalidated by object IDENTITY is stale after
+    #      an in-place update of the arrays - and the code base has such updates (the sampler rescales `model.u *= c`)
+    with res.guard("E-IDCACHE"):
+        res.rules["E-IDCACHE"] = "no value derived from u / w is cached on the model and revalidated by identity of the arrays (in-place updates of u / w exist in the code base and keep the identity)"
+        inplace = []
+        for q_, g_ in sorted(ctx.prog.functions.items()):
+            for n in walk_no_nested(g_.node):
+                tg = n.target if isinstance(n, ast.AugAssign) else (n.targets[0] if isinstance(n, ast.Assign) and isinstance(n.targets[0], ast.Subscript) else None)
+                base = tg.value if isinstance(tg, ast.Subscript) else tg
+                if isinstance(base, ast.Attribute) and base.attr in PARAMS and (isinstance(n, ast.AugAssign) or isinstance(tg, ast.Subscript)) and "hy_mmsbm" in g_.module.relpath:
+                    inplace.append((g_, n))
+        n_id = 0
+        for name_, mfi in sorted(ctx.methods("HyMMSBM").items()):
+            mv = ctx.view(mfi)
+            ident = [c for c in walk_no_nested(mfi.node) if isinstance(c, ast.Compare) and len(c.ops) == 1 and isinstance(c.ops[0], (ast.Is, ast.IsNot)) and any(is_self_attr(x, p_) for p_ in PARAMS for x in (c.left, c.comparators[0])) and not any(isinstance(x, ast.Constant) and x.value is None for x in (c.left, c.comparators[0]))]
+            stores_attr = [x for x in walk_no_nested(mfi.node) if isinstance(x, ast.Assign) and any(is_self_attr(t) and t.attr not in PARAMS for t in x.targets)]
+            for c in ident:
+                n_id += 1
+                if stores_attr and inplace:
+                    g_, n_ = inplace[0]
+                    res.violation("E-IDCACHE", mfi.short, norm(c), "identity-keyed", f"a value cached on the model is reused as long as u / w are the same OBJECTS; `{norm(n_)}` ({loc(g_, n_)}) changes them in place, so expected degrees / sizes and the likelihood are answered for the old parameters", loc(mfi, c))
+                else:
+                    res.unknown("E-IDCACHE", mfi.short, norm(c), "identity-keyed", "identity comparison of a parameter array", loc(mfi, c))
+        if not n_id:
+            res.ok("E-IDCACHE", "HyMMSBM", "no identity-keyed cache", "identity-keyed", "")
     # ---- closure: nobody else stores to self.u / self.w or mutates aliases in place
     with res.guard("closure: nobody else stores to self.u / self.w or mutates aliases in place"):
         clo = [g for g in R.closure(ctx, fi) if g.qualname != fi.qualname and g.name not in ("_init_w", "_init_u", "__init__", "_check_and_infer_param_consistency")]
